@@ -493,11 +493,14 @@ class Ctx:
             "wall_s": round(time.time() - self.t0, 1),
             "violations": nviol,
         }
-        os.makedirs(EVIDENCE, exist_ok=True)
-        tmp = os.path.join(EVIDENCE, ".%s.json.tmp" % self.prop)
+        # X-checks (behaviour beyond the listed properties, see DESIGN.md section 12) keep their records apart from the
+        # evidence of the claimed properties
+        evdir = EVIDENCE if not self.prop.startswith("X") else os.path.join(VERIF, "evidence-extra")
+        os.makedirs(evdir, exist_ok=True)
+        tmp = os.path.join(evdir, ".%s.json.tmp" % self.prop)
         with open(tmp, "w") as f:
             json.dump(ev, f, indent=1)
-        os.replace(tmp, os.path.join(EVIDENCE, "%s.json" % self.prop))
+        os.replace(tmp, os.path.join(evdir, "%s.json" % self.prop))
 
 
 def maximal_behaviours(records):
